@@ -132,14 +132,27 @@ static void run(Ctx& c) {
             // classify where the invalid scalar cases are (from the inputs only; used in violation keys)
             std::string errPattern = "general";
             if (m.hasErr) {
-                bool allAbsorb = true;
+                bool allAbsorb = true, wholeRows = true;
+                // absorbing first operands: +infinity (EV+), 0 in MT forests, and 0 for DIVIDE / MODULO in every forest (0/x = 0%x = 0)
+                auto absorbing = [&](const Val& v) { return v.isInf() || ((!proto.isEVP() || op == B_DIVIDE || op == B_MODULO) && (v.k == Val::R ? v.r == 0 : v.i == 0)); };
+                // the bottom row of a point: all points that differ from it only in the lowest level (x1 for sets, x1' for relations)
+                const size_t rowLen = size_t(rel ? w.shapeP.sizes[1] : w.shape.sizes[1]);
                 for (size_t i = 0; i < ta.size(); i++) {
                     SR s1 = scalarBin(op, ta[i], tb[i], real);
                     if (s1.t != SR::ERR) continue;
-                    bool aTransparent = ta[i].isInf() || (!proto.isEVP() && (ta[i].k == Val::R ? ta[i].r == 0 : ta[i].i == 0));
-                    if (!aTransparent) allAbsorb = false;
+                    if (!absorbing(ta[i])) allAbsorb = false;
+                    size_t row0 = i - (i % rowLen);
+                    for (size_t j = row0; j < row0 + rowLen; j++) if (!absorbing(ta[j])) wholeRows = false;
                 }
                 if (sameOperand || (fa == fb && firstDiff(ta, tb) < 0)) errPattern = "equal-operand-edges";
+                // known class: the first operand is absorbing on the WHOLE bottom row of every invalid point (its diagram has the
+                // transparent edge above the terminals there and the 'simplifies to first argument' shortcut never looks at the second
+                // operand).  If some invalid point sits in a row where the first operand also takes other values, the recursion
+                // reaches the terminals for that row and the error must be raised.
+                else if (allAbsorb && wholeRows) errPattern = "invalid-only-where-first-operand-is-zero-or-infinite";
+                // (observed on the unchanged tree: MODULO and MINUS miss the error in mixed rows too -- their terminal-level code tests
+                //  the first operand first -- and so does DIVIDE in relation forests; DIVIDE on sets tests the divisor first)
+                else if (allAbsorb && op == B_DIVIDE && !rel) errPattern = "invalid-only-where-first-operand-is-zero-or-infinite-but-inside-mixed-bottom-rows-of-a-set";
                 else if (allAbsorb) errPattern = "invalid-only-where-first-operand-is-zero-or-infinite";
             }
             int fcb = int(r.below(PB.f.size()));
